@@ -142,6 +142,10 @@ let respond (line : String.t) : String.t =
     (match subs_of_term (parse_term s) with
      | None -> "nosubs"
      | Some s -> show_keys (subst_key s (parse_term bounded) (parse_term trait_)))
+  | [ "wf"; s ] ->
+    (match subs_of_term (parse_term s) with
+     | None -> "nosubs"
+     | Some s -> bool_s (wf_subsb s))
   | [ "stable"; s; bounded; trait_ ] ->
     (match subs_of_term (parse_term s) with
      | None -> "nosubs"
